@@ -2,7 +2,7 @@
    Level "other"/partial: what is proved is that every loop of the MODEL is bounded by the bytes (bits) actually present
    - the explicit recursion budgets can never be exhausted, on ANY input.  Wall-clock time and resident memory of
    CPython, zlib and lxml are observed by fault injection, not proved. *)
-From RU Require Import Base Types Defs BitReader World WireSpec Container TypesProofs FrameProofs TerminationProofs.
+From RU Require Import Base Types Defs BitReader World WireSpec Container TypesProofs FrameProofs TerminationProofs GrowthProofs.
 Open Scope N_scope.
 
 (* the play loop: on EVERY byte string the framer ends within its budget (<= bytes/12 + 1 iterations) *)
@@ -30,3 +30,15 @@ Proof. exact walk_no_fuel. Qed.
 Theorem C15_block_loop_terminates : forall fuel cnt bs, (length bs < fuel)%nat -> read_blocks fuel cnt bs <> Err EFuel.
 Proof. exact read_blocks_no_fuel. Qed.
 Print Assumptions C15_block_loop_terminates.
+
+(* memory, at the nested reader: ONE nested-change packet makes a list longer by at most the number of bytes it carries.  The bounds of a slice
+   packet do not enter the estimate - a bound past the end is clamped, never padded - so no run of tiny packets makes a list grow geometrically;
+   a single-element change keeps the length *)
+Theorem C15_nested_list_growth_bounded : forall is_slice et l r v nm b,
+  leaf_op is_slice (VList et l) r = Ok (v, nm, b) ->
+  exists l', v = VList et l' /\ (length l' <= length l + length (br_src r))%nat /\ (is_slice = false -> length l' = length l).
+Proof. exact leaf_op_list_growth. Qed.
+Print Assumptions C15_nested_list_growth_bounded.
+Example C15_growth_example :
+  exists v nm b, leaf_op true (VList (TUInt 1) [VInt 1; VInt 2; VInt 3]) (br_init [xfc; x07]) = Ok (v, nm, b).
+Proof. exact growth_example. Qed.
